@@ -1,8 +1,8 @@
+\* the known deviation 'scalar-list-null-element-error-at-list-path' admitted (see GqlRef)
 SPECIFICATION TraceSpec
 CONSTANT Schema <- SchemaFile
-CONSTANT AllowUndeliverable = FALSE
 CONSTRAINT HighWater
 INVARIANT TypeOK
 POSTCONDITION TraceAccepted
 CHECK_DEADLOCK FALSE
-CONSTANT LeafElemErrAtList = FALSE
+CONSTANT LeafElemErrAtList = TRUE
